@@ -88,7 +88,7 @@ def run (fixed : Bool) : List Op → Apbp → Apbp × List Out
 channel's interrupt is disabled, by `semSet` when the resulting signal is 1, by `semMask` when
 the signal rises, never by `semClear`. -/
 def Spec.step (s : Spec) : Op → Spec × Out
-  | .reset => ({ s with box := fun _ => ⟨0, false⟩, sem := ⟨0, 0⟩ }, 0, [])
+  | .reset => ({ s with box := fun _ => ⟨0, false⟩, irqDisable := fun _ => 0, sem := ⟨0, 0⟩ }, 0, [])
   | .send ch v => ({ s with box := upd s.box ch ⟨v, true⟩ }, 0,
       if s.irqDisable ch = 0 then [.data ch] else [])
   | .recv ch => ({ s with box := upd s.box ch ⟨(s.box ch).value, false⟩ }, (s.box ch).value, [])
